@@ -76,6 +76,9 @@ PROPS = {
             S("shortframes", ["--maxlen", 3], ["--maxlen", 4], profile="checked", oracle=False),
             S("prefix", ["--cases", 300, "--maxlen", 3], ["--cases", 50000, "--maxlen", 5], oracle=False),
             S("prefix", ["--cases", 300, "--maxlen", 3], ["--cases", 50000, "--maxlen", 5], profile="checked", oracle=False),
+            # every kind of length prefix (values around every power of two up to 2^64 - 1, over-long, overflowing) with
+            # overflow checks on: arithmetic on a length the peer chose
+            S("limit", ["--cases", 400], ["--cases", 30000], profile="checked", oracle=False),
             S("procmsg", ["--cases", 200], ["--cases", 20000], profile="checked", oracle=False),
             S("node", ["--cases", 80], ["--cases", 5000, "--ops", 150], profile="checked"),
             S("nodebig", ["--cases", 8], ["--cases", 200], profile="checked"),
